@@ -82,6 +82,7 @@ def _unsync():
     INSU = {"C01", "C04", "C10", "C12", "C14"}
     INV = {"C07", "C01", "C03", "C10", "C14"}
     EXP = {"C05", "C06"}
+    src = _re.sub(r"(?m)\);\s*//.*$", ");", src)   # trailing comments
     for m in _re.finditer(r"^uh(_real_purge)?!\((\w+), \d+, (op_\w+)::<(\w+)>\(&cfgt?\((\d), (.*)\);$", src, _re.M):
         real, name, op, hs, n, tail = m.groups()
         mm = _re.search(r"(true|false), (?:W1|WT_\w+), (true|false), (true|false), WO_\w+, (?:true|false)(?:, \d)?\)(.*)\)$", tail)
@@ -94,7 +95,7 @@ def _unsync():
         if op == "op_insert":
             props = INSU if "_upd" in name else INSN
         props = set(props) | {"C08"}
-        if ttl: props |= {"C05"}
+        if ttl: props |= {"C05", "C11"}
         if tti: props |= {"C06"}
         if "nocap" in name: props |= {"C17"}
         if op == "op_evict_lru" and "within" in name: props |= {"C03"}
@@ -111,8 +112,10 @@ def _unsync():
         if name in ("get_hit0_n2_full", "insert_new_n2_full", "insert_upd_n2_w_grow", "invalidate_if_n2_w_m0001", "iter_n2", "contains_n2_full",
                     "evict_lru_n2_grown", "purge_tti_on_deadline_w", "contains0_ttl_realpurge", "insert_new_n2_zero_victim", "invalidate_all_both"):
             prim |= {"C08"}
-        if name in ("insert_new_n2_room", "insert_new_n2_w_fits", "insert_new_ttl_room", "purge_both_zero_dur_w", "invalidate1_n2_w"):
+        if name in ("insert_new_n2_room", "insert_new_ttl_full", "insert_new_ttl_room", "purge_both_zero_dur_w", "invalidate1_n2_w", "invalidate1_ttl"):
             prim |= {"C11"}
+        if name == "insert_upd0_n2_full":
+            prim |= {"C12"}
         if name == "insert_new_n2_w_no_prefix":
             prim = {"C13", "C12"}
         if name == "insert_upd0_n2_w_oversize":
@@ -242,6 +245,10 @@ add("sync_builder.rs", "sync_builder_new_equals_max_capacity", {"C17"}, "quick",
 
 PROPS = {}
 QUICK_UNSYNC_CAP = 14
+# queries that the thinning must never drop (each is the only quick witness of some failure class)
+KEEP = {"insert_upd0_n2_w_oversize", "purge_tti_on_deadline_w", "insert_new_n2_w_overcap", "insert_new_ttl_full", "insert_new_tti_full",
+        "invalidate1_ttl", "insert_new_n2_w_admit", "insert_upd0_n2_full", "insert_new_n2_w_no_prefix", "get0_ttl_on_deadline",
+        "contains0_tti_1ns_before", "iter_max_dur", "insert_new_n2_full", "get_hit0_n2_full", "evict_lru_n2_grown", "get_hit1_n2_w_overcap"}
 def plan(prop, tier):
     if tier == "thorough":
         return [h for h in H if prop in h.props]
@@ -249,10 +256,13 @@ def plan(prop, tier):
     u = [h for h in q if h.file == "unsync_cache.rs" and not h.expect_fail and h.cost >= 30]
     if len(u) > QUICK_UNSYNC_CAP:
         # deterministic thinning that keeps the spread over operation kinds: every k-th in registration order
-        keep, k = set(), len(u) / QUICK_UNSYNC_CAP
+        keep = {h.name for h in u if h.fn in KEEP}
+        rest = [h for h in u if h.fn not in KEEP]
+        room = max(0, QUICK_UNSYNC_CAP - len(keep))
+        k = len(rest) / room if room else 0
         i = 0.0
-        while int(i) < len(u) and len(keep) < QUICK_UNSYNC_CAP:
-            keep.add(u[int(i)].name)
+        while room and int(i) < len(rest) and len(keep) < QUICK_UNSYNC_CAP:
+            keep.add(rest[int(i)].name)
             i += k
         q = [h for h in q if h not in u or h.name in keep]
     return q
